@@ -59,6 +59,7 @@ type labConn struct {
 	start  time.Time
 	peer   net.Addr
 	onWrite func(b []byte) // reaction of the scripted servers to a client transmission
+	runaway bool
 }
 
 func newLabConn() *labConn {
@@ -76,6 +77,11 @@ func (c *labConn) ReadFrom(p []byte) (int, net.Addr, error) {
 func (c *labConn) WriteTo(p []byte, addr net.Addr) (int, error) {
 	c.mu.Lock()
 	defer c.mu.Unlock()
+	if len(c.writes) >= 2000 {
+		// a call that keeps transmitting without ever waiting would spin forever: stop it and let the oracles report it
+		c.runaway = true
+		return 0, net.ErrClosed
+	}
 	c.writes = append(c.writes, writeRec{time.Since(c.start), addr.String(), append([]byte{}, p...)})
 	if c.onWrite != nil {
 		c.onWrite(append([]byte{}, p...))
@@ -149,7 +155,14 @@ func timedCallV4(tau time.Duration, tries int, cancelAt, closeAt *time.Duration,
 		}
 		ctx, cancel := context.WithCancel(context.Background())
 		defer cancel()
-		if cancelAt != nil {
+		// a context ends either by an explicit cancel or by reaching its own deadline (odd instants)
+		byDeadline := cancelAt != nil && (*cancelAt/time.Millisecond)%2 == 1
+		if byDeadline {
+			cancel()
+			ctx, cancel = context.WithTimeout(context.Background(), *cancelAt)
+			defer cancel()
+		}
+		if cancelAt != nil && !byDeadline {
 			go func() {
 				select {
 				case <-time.After(*cancelAt):
@@ -177,7 +190,7 @@ func timedCallV4(tau time.Duration, tries int, cancelAt, closeAt *time.Duration,
 			out.result = 1
 		case errors.Is(err, nclient4.ErrNoResponse):
 			out.result = 2
-		case errors.Is(err, context.Canceled):
+		case ctx.Err() != nil && errors.Is(err, ctx.Err()):
 			out.result = 3
 		default:
 			out.result = 9
@@ -216,7 +229,14 @@ func timedCallV6(tau time.Duration, tries int, cancelAt, closeAt *time.Duration,
 		}
 		ctx, cancel := context.WithCancel(context.Background())
 		defer cancel()
-		if cancelAt != nil {
+		// a context ends either by an explicit cancel or by reaching its own deadline (odd instants)
+		byDeadline := cancelAt != nil && (*cancelAt/time.Millisecond)%2 == 1
+		if byDeadline {
+			cancel()
+			ctx, cancel = context.WithTimeout(context.Background(), *cancelAt)
+			defer cancel()
+		}
+		if cancelAt != nil && !byDeadline {
 			go func() {
 				select {
 				case <-time.After(*cancelAt):
@@ -243,7 +263,7 @@ func timedCallV6(tau time.Duration, tries int, cancelAt, closeAt *time.Duration,
 			out.result = 1
 		case errors.Is(err, nclient6.ErrNoResponse):
 			out.result = 2
-		case errors.Is(err, context.Canceled):
+		case ctx.Err() != nil && errors.Is(err, ctx.Err()):
 			out.result = 3
 		default:
 			out.result = 9
@@ -425,13 +445,6 @@ func isDeadline(at, tau, n int) bool {
 	return false
 }
 
-func maxInt(a, b int) int {
-	if a > b {
-		return a
-	}
-	return b
-}
-
 func bytesEq(a, b []byte) bool {
 	if len(a) != len(b) {
 		return false
@@ -514,6 +527,27 @@ func genC11(r *Run) {
 		}
 		if c := optMs(cancel); c != nil && o.result == 3 && o.end != *c {
 			r.Fail("c11-cancel-instant", trunc(cs, 600), fmt.Sprintf("context ended at %v, call returned at %v", *c, o.end))
+		}
+		if c := optMs(cancel); c != nil && *c < time.Duration(total)*time.Millisecond {
+			// the context ended (cancelled or past its own deadline) while the call was waiting and before any
+			// acceptable response: the call returns the context's error at that instant and sends nothing more
+			accepted := false
+			for _, d := range ds {
+				if len(d) > 4 && d[4] == 1 && msArg(d[:4]) <= *c {
+					accepted = true
+				}
+			}
+			if !accepted {
+				if o.result != 3 || o.end != *c {
+					r.Fail("c11-context-end", trunc(cs, 600), fmt.Sprintf("context ended at %v: result class %d at %v, want the context's error at %v", *c, o.result, o.end, *c))
+				}
+				for _, at := range o.tx {
+					if at > *c {
+						r.Fail("c11-transmission-after-context-end", trunc(cs, 600), fmt.Sprintf("transmission at %v, context ended at %v", at, *c))
+						break
+					}
+				}
+			}
 		}
 		if k := optMs(closeAt); k != nil && o.result == 2 && o.end > *k && o.end < time.Duration(total)*time.Millisecond {
 			// a no-response result strictly between close and the schedule's end is late
